@@ -21,7 +21,9 @@ class DCmp:
         self.big = r.big
 
     def bad(self, kind, msg):
-        self.rep.add(f"{self.prop}|rust|dec|{kind}", msg, self.where)
+        side = getattr(self, "side", None)
+        lang = "python|parse" if side == "py" else ("cxx|parse" if side == "cxx" else "rust|dec")
+        self.rep.add(f"{self.prop}|{lang}|{kind}", msg, self.where)
 
     def order_ok(self, nbytes, order):
         if nbytes <= 1:
@@ -173,6 +175,18 @@ class DCmp:
                 self.bad("missing-item", f"the decoder stops before reading the {k} item {w.get('name', '')}")
                 return
             if k == "chunk":
+                if g.get("k") == "chunk" and g.get("skipped") and g["n"] != w["n"]:
+                    # a run of reserved-only groups skipped at once
+                    all_res = all(bf["k"] == "reserved" for bf in w["fields"])
+                    left = self.__dict__.setdefault("_skip_left", {}).get(id(g), g["n"])
+                    if all_res and left >= w["n"]:
+                        left -= w["n"]
+                        self._skip_left[id(g)] = left
+                        self.n += 1
+                        if left > 0:
+                            continue        # stay on the same skipped item
+                        gi += 1
+                        continue
                 if not self.chunk(w, g):
                     return
             elif k == "array":
